@@ -37,6 +37,7 @@ import (
 	"github.com/megaease/easegress/pkg/supervisor"
 	"github.com/megaease/easegress/pkg/tracing"
 	"github.com/megaease/easegress/pkg/util/jsontool"
+	"github.com/megaease/easegress/pkg/util/signer"
 	"github.com/megaease/easegress/pkg/util/yamltool"
 	"github.com/megaease/easegress/pkg/v"
 )
@@ -426,6 +427,11 @@ func DefaultReqs(g *Gen, kind string, doc interface{}) []Req {
 		{Method: "GET", Path: "", Resp: 0},
 		{Method: "HEAD", Path: "/", Headers: [][2]string{{"Cookie", "a=b"}}, Resp: 1},
 	}
+	if findSignature(doc) != nil {
+		// syntactically complete, correctly signed requests: verification runs to the end
+		reqs = append(reqs, Req{Method: "GET", Path: "/signed?x=1", Resp: 0, Sign: true},
+			Req{Method: "POST", Path: "/signed", Headers: [][2]string{{"X-Test", "a"}}, Body: "hello", Resp: 0, Sign: true})
+	}
 	m0 := "GET"
 	if len(methods) > 0 {
 		m0 = methods[g.R.Intn(len(methods))]
@@ -572,6 +578,71 @@ func NewContext(rq Req) *context.Context {
 	return NewHTTPContext(rq)
 }
 
+// findSignature looks for a signer configuration in a decoded document: the
+// "signature" section of a Validator (also inside the filters of a Pipeline).
+func findSignature(x interface{}) map[string]interface{} {
+	switch v := x.(type) {
+	case []interface{}:
+		for _, e := range v {
+			if m := findSignature(e); m != nil {
+				return m
+			}
+		}
+	case map[string]interface{}:
+		if m, ok := v["signature"].(map[string]interface{}); ok {
+			return m
+		}
+		ks := make([]string, 0, len(v))
+		for k := range v {
+			ks = append(ks, k)
+		}
+		sort.Strings(ks)
+		for _, k := range ks {
+			if m := findSignature(v[k]); m != nil {
+				return m
+			}
+		}
+	}
+	return nil
+}
+
+// NewContextFor is NewContext plus request signing (rq.Sign) with the signer
+// configuration of the document under test.
+func NewContextFor(doc interface{}, rq Req) (ctx *context.Context) {
+	ctx = NewContext(rq)
+	if ctx == nil || !rq.Sign || rq.MQTT != "" {
+		return ctx
+	}
+	defer func() { recover() }() // signing is harness work: a failure leaves the request unsigned
+	sig := findSignature(doc)
+	if sig == nil {
+		return ctx
+	}
+	yb, err := yaml2.Marshal(sig)
+	if err != nil {
+		return ctx
+	}
+	spec := &signer.Spec{}
+	if yaml2.Unmarshal(yb, spec) != nil {
+		return ctx
+	}
+	id, secret := "AKID", "secret"
+	ids := make([]string, 0, len(spec.AccessKeys))
+	for k := range spec.AccessKeys {
+		ids = append(ids, k)
+	}
+	sort.Strings(ids)
+	if len(ids) > 0 {
+		id, secret = ids[0], spec.AccessKeys[ids[0]]
+	}
+	spec.AccessKeyID, spec.AccessKeySecret = id, secret
+	spec.AccessKeys = nil
+	sg := signer.CreateFromSpec(spec)
+	req := ctx.GetInputRequest().(*httpprot.Request)
+	sg.NewContext(time.Now(), "c13").Sign(req.Std())
+	return ctx
+}
+
 // stubbed backend transport of the Proxy filter
 func stubSend(r *http.Request, _ *http.Client) (*http.Response, error) {
 	if r.Body != nil {
@@ -676,8 +747,12 @@ func RunFilter(spec filters.Spec, reqs []Req, obs *Obs) {
 			}
 		}
 	}
+	var doc interface{}
+	if rq0 := reqs; len(rq0) > 0 {
+		doc, _ = NormDoc(spec)
+	}
 	for i, rq := range reqs {
-		ctx := NewContext(rq)
+		ctx := NewContextFor(doc, rq)
 		if ctx == nil {
 			continue
 		}
